@@ -332,6 +332,49 @@ def wl_crafted(u):
             u.call("pubkey_tweak_add", ka.b(1), b32(n - a_), cls="crafted:tweak_add:cancel")
             u.call("xonly_tweak_add", u.call("xonly_from_pubkey", ka.b(1), 1, cls="setup", nt=False).b(1), b32(n - a_ if not (mulG(a_)[1] & 1) else a_), cls="crafted:xonly_tweak_add:cancel")
 
+def wl_crafted_rings(u):
+    """Borromean chain point R = s*G + e*P forced to infinity (ring secrets known to the attacker) in surjection, whitelist and
+    range-proof verification"""
+    from ref import borromean, whitelist
+    rng = u.rng; ctx = u.ctx
+    for it in range(ctx.n(40, 1200)):
+        # surjection: generators g_i*G, ring keys (g_o - g_i)*G
+        nin = rng.choice((1, 2, 3, 5)); gs = [rng.randrange(1, n) for _ in range(nin)]; go = rng.randrange(1, n)
+        if any(g == go for g in gs): continue
+        ins = [mulG(g) for g in gs]; out = mulG(go); used = sorted(rng.sample(range(nin), rng.randrange(1, nin + 1)))
+        pubs = [sub(out, ins[j]) for j in used]; secs = [(go - gs[j]) % n for j in used]; e0 = pools.rbytes(rng, 32); sc = [[rng.randrange(1, n) for _ in used]]
+        cs = borromean.craft_infinity(e0, sc, [pubs], [secs], [len(used)], sj.msg(ins, out), 0, rng.randrange(len(used)))
+        gobjs = [u.call("generator_parse", zkp.gen_ser(P), cls="setup", nt=False) for P in ins + [out]]
+        if cs is not None and all(g is not None and g.ret == 1 for g in gobjs):
+            bm = bytearray((nin + 7) // 8)
+            for j in used: bm[j // 8] |= 1 << (j % 8)
+            p_ = u.call("surj_parse", sj.serialize(nin, bytes(bm), e0, cs[0]), cls="setup", nt=False)
+            if p_ is not None and p_.ret == 1: u.call("surj_verify", p_.b(1), b''.join(g.b(1) for g in gobjs[:-1]), nin, gobjs[-1].b(1), cls="crafted:surjection:chain_point_infinity")
+        # whitelist
+        nk = rng.choice((1, 2, 3, 6)); on_sk = [rng.randrange(1, n) for _ in range(nk)]; off_sk = [rng.randrange(1, n) for _ in range(nk)]; w = rng.randrange(1, n)
+        on = [mulG(x) for x in on_sk]; off = [mulG(x) for x in off_sk]; W = mulG(w)
+        km = whitelist.keys_and_msg(on, off, W)
+        if km is not None:
+            secs = [(on_sk[i] + I(sha(ser33(mulG((off_sk[i] + w) % n)))) * (off_sk[i] + w)) % n for i in range(nk)] if all((off_sk[i] + w) % n for i in range(nk)) else None
+            if secs:
+                e0 = pools.rbytes(rng, 32); cs = borromean.craft_infinity(e0, [[rng.randrange(1, n) for _ in range(nk)]], [km[0]], [secs], [nk], km[1], 0, rng.randrange(nk))
+                if cs is not None:
+                    p_ = u.call("wl_parse", bytes([nk]) + e0 + b''.join(b32(x) for x in cs[0]), cls="setup", nt=False)
+                    ko = lambda P: u.call("pubkey_parse", ser33(P), cls="setup", nt=False).b(1)
+                    if p_ is not None and p_.ret == 1: u.call("wl_verify", p_.b(1), b''.join(ko(P) for P in on), b''.join(ko(P) for P in off), nk, ko(W), cls="crafted:whitelist:chain_point_infinity")
+        # range proof under a generator of known discrete log
+        h = rng.randrange(1, n); H = mulG(h); mant = rng.choice((1, 2, 3, 4, 5)); v = rng.randrange(1 << mant); blind = rng.randrange(1, n)
+        pr = rp.make_proof(v, blind, H, 0, mant, 0, b'', rng, small=False)
+        if pr is not None and pr.get("ring_secs"):
+            ring = rng.randrange(pr["rings"]); pos = rng.randrange(pr["rsizes"][ring])
+            cs = borromean.craft_infinity(pr["e0"], pr["s_nested"], pr["pubs"], pr["ring_secs_all"](h), pr["rsizes"], pr["m"], ring, pos)
+            if cs is not None:
+                proof = pr["proof"][:pr["soff"]] + b''.join(b32(x) for r_ in cs for x in r_)
+                Co = u.call("commitment_parse", zkp.commit_ser(pr["C"]), cls="setup", nt=False); Ho = u.call("generator_parse", zkp.gen_ser(H), cls="setup", nt=False)
+                if Co is not None and Ho is not None and Co.ret == 1 and Ho.ret == 1:
+                    u.call("rangeproof_verify", Co.b(1), proof, None, Ho.b(1), cls="crafted:rangeproof:chain_point_infinity")
+                    u.call("rangeproof_rewind", 7, 4096, pools.rbytes(rng, 32), Co.b(1), proof, None, Ho.b(1), cls="crafted:rangeproof:chain_point_infinity")
+
 def libfuzzer(ctx):
     """thorough tier: libFuzzer over the same entry-point families (shim/fuzzdrv.c), bounded by -runs"""
     try:
@@ -364,5 +407,5 @@ def libfuzzer(ctx):
 def run(ctx):
     for config in ctx.configs:
         u = U(ctx, config)
-        wl_keys_sigs(u); wl_musig(u); wl_adaptor_s2c_ell(u); wl_zkp(u); wl_surj_wl(u); wl_bppp_halfagg(u); wl_crafted(u)
+        wl_keys_sigs(u); wl_musig(u); wl_adaptor_s2c_ell(u); wl_zkp(u); wl_surj_wl(u); wl_bppp_halfagg(u); wl_crafted(u); wl_crafted_rings(u)
     if not ctx.quick: libfuzzer(ctx)
